@@ -599,7 +599,7 @@ def to_script(dataframe_schema, path_or_buf=None):
 
     script = SCRIPT_TEMPLATE.format(
         columns=column_str,
-        checks=statistics["checks"],
+        checks=_format_checks(statistics["checks"]),
         index=index,
         dtype=dataframe_schema.dtype,
         coerce=dataframe_schema.coerce,
